@@ -7,6 +7,7 @@ import VaxisModel.Lemmas.DynList
 * F119b (recorded): items replaced by fewer than `top`, then an upward scroll: `Children[len-1]` of
   an empty list.
 * F119c (recorded): children inserted above the top ignore a non-zero gap.
+* F119d (recorded): the builder's content shrinks below the scroll offset: the state is never re-anchored.
 * F119f (fixed): `insertChildren` left `scroll.top` one below the first inserted widget. -/
 namespace VaxisModel.Witness.F119
 open VaxisModel.Model.DynList VaxisModel.Lemmas.DynList
@@ -71,6 +72,20 @@ theorem insert_top_fixed_shows_selection :
     (match run ⟨true, true⟩ ⟨0, false⟩ [1, 1, 5, 2] init f119fOps with
      | .ok s => (match draw ⟨true, true⟩ ⟨0, false⟩ [1, 1, 5, 2] s 4 5 with
         | .ok (_, cs) => cs.map (fun c => (c.idx, c.row, c.height)) == [(2, 0, 5)]
+        | .error _ => false)
+     | .error _ => false) = true := by decide
+
+/-- F119d (recorded): heights 1,1,1,9,1, `SetCursor(3); Draw(H=2)` leaves top = 3 with offset 7 inside
+    the 9-row item; the builder then returns heights 1,1,1,2,1 (item 3 shrank to 2 rows).  `NextItem;
+    Draw(H=2)` draws item 3 at row −7 and the selected item 4 at row −5: nothing covers row 0, the
+    state is never re-anchored and the selection stays invisible. -/
+theorem stale_offset_hides_selection :
+    (match run ⟨true, true⟩ ⟨0, false⟩ [1, 1, 1, 9, 1] init [.setCursor 3, .draw 4 2] with
+     | .ok s => (match run ⟨true, true⟩ ⟨0, false⟩ [1, 1, 1, 2, 1] s [.next] with
+        | .ok s1 => (match draw ⟨true, true⟩ ⟨0, false⟩ [1, 1, 1, 2, 1] s1 4 2 with
+          | .ok (s2, cs) => cs.map (fun c => (c.idx, c.row, c.height)) == [(3, -7, 2), (4, -5, 1)]
+              && s2.top == 3 && s2.offset == 7
+          | .error _ => false)
         | .error _ => false)
      | .error _ => false) = true := by decide
 
